@@ -26,6 +26,9 @@ CLAIMED = {
  'C09': dict(design='4/C09', technique='TLA+ BigNat (school arithmetic on digit sequences) + operator tables of the manual in JaqValues; TLC enumerates boundary operand pairs, kind pairs and integer consumers; vectors replayed on the library',
    text='Expected results for integer arithmetic at every machine/big boundary are computed by TLC with an explicit arbitrary-precision arithmetic written in TLA+; the manual`s operator rules for all kind pairs and the representation independence of 16 integer consumers are enumerated exhaustively over the suites and replayed on the real code.',
    note='general IEEE-754 results are outside the specification (only exact small dyadic values, signed zero, NaN, infinities); same trusted base as C01'),
+ 'C15': dict(design='4/C15', technique='TLA+ declarative grammar (JaqParse: precedence/associativity table as a minimal-parenthesis renderer) enumerated by TLC over operator pairs/triples and operand constructs; token sequences with trivia variants parsed by the real parser and compared structurally; shorthands validated as traces against the semantics of their expansions',
+   text='For every ordered pair and triple of operators in every grouping and every prefix/postfix/binder construct in operand position, TLC renders the tree with minimal, redundant and full parentheses from the documented table; the real parser must return exactly the tree for each rendering under six trivia variants (whitespace, newlines, comments, backslash continuation, CRLF). Documented shorthands are run on the real code and TLC checks the outputs against the semantics of their expansions; ill-formed texts must be rejected.',
+   note='the renderer is the specification of the table (TLC checks it is balanced and minimal); the list of ill-formed texts is hand-written; harness normalisation of sugar (missing else, elif, {a}, {$x}, f?) is trusted'),
 }
 
 checks = []
